@@ -1,4 +1,5 @@
 #include "model.h"
+#include <algorithm>
 
 #include <cerrno>
 #include <cmath>
@@ -26,6 +27,13 @@ int JVal::count_key(const std::string& key) const {
   return c;
 }
 bool JVal::has_dup_keys() const {
+  if (o.size() > 48) {   // large objects: sort instead of comparing all pairs
+    std::vector<const std::string*> ks; ks.reserve(o.size());
+    for (auto& kv : o) ks.push_back(&kv.first);
+    std::sort(ks.begin(), ks.end(), [](const std::string* a, const std::string* b) { return *a < *b; });
+    for (size_t i = 1; i < ks.size(); i++) if (*ks[i - 1] == *ks[i]) return true;
+    return false;
+  }
   for (size_t i = 0; i < o.size(); i++)
     for (size_t j = i + 1; j < o.size(); j++) if (o[i].first == o[j].first) return true;
   return false;
@@ -39,6 +47,12 @@ void JVal::clear_maps() {
   has_map = false;
   for (auto& x : a) x.clear_maps();
   for (auto& kv : o) kv.second.clear_maps();
+}
+size_t JVal::max_object_size() const {
+  size_t m = k == Obj ? o.size() : 0;
+  for (auto& x : a) { size_t c = x.max_object_size(); if (c > m) m = c; }
+  for (auto& kv : o) { size_t c = kv.second.max_object_size(); if (c > m) m = c; }
+  return m;
 }
 bool JVal::nonfinite_deep() const {
   if (k == Real) { return ((u >> 52) & 0x7ff) == 0x7ff; }
@@ -77,6 +91,16 @@ bool equal_value(const JVal& a, const JVal& b) {
       return true;
     case JVal::Obj:
       if (a.o.size() != b.o.size()) return false;
+      if (a.o.size() > 48) {   // large objects: index b's FIRST occurrence of every key
+        std::vector<std::pair<const std::string*, size_t>> idx; idx.reserve(b.o.size());
+        for (size_t j = 0; j < b.o.size(); j++) idx.emplace_back(&b.o[j].first, j);
+        std::stable_sort(idx.begin(), idx.end(), [](const std::pair<const std::string*, size_t>& x, const std::pair<const std::string*, size_t>& y) { return *x.first < *y.first; });
+        for (auto& kv : a.o) {
+          auto it = std::lower_bound(idx.begin(), idx.end(), kv.first, [](const std::pair<const std::string*, size_t>& x, const std::string& key) { return *x.first < key; });
+          if (it == idx.end() || *it->first != kv.first || !equal_value(kv.second, b.o[it->second].second)) return false;
+        }
+        return true;
+      }
       for (auto& kv : a.o) {
         int j = b.find(kv.first);
         if (j < 0 || !equal_value(kv.second, b.o[j].second)) return false;
